@@ -113,6 +113,7 @@ type arena struct {
 	chV, chM   *client.Channel // attacked channel (M participant 0, V participant 1)
 	ctlV       *client.Channel // control channel V-H (H participant 0)
 	hubV       *client.Channel // V-I (V participant 0)
+	virtM      *client.Channel // virtual channel H-M through the hub V, at M (participant 1), if set up
 }
 
 func bals(n int, a, b int64) [][]int64 {
@@ -123,7 +124,7 @@ func bals(n int, a, b int64) [][]int64 {
 	return out
 }
 
-func newArena(rng *rand.Rand, withHub bool) (*arena, string) {
+func newArena(rng *rand.Rand, withHub, withVirtual bool) (*arena, string) {
 	a := &arena{}
 	a.w = party.NewWorld(rng, 1+rng.Intn(2), rng.Intn(3))
 	a.V, a.M, a.H, a.S = a.w.NewParty("V", 100000), a.w.NewParty("M", 100000), a.w.NewParty("H", 100000), a.w.NewParty("S", 100000)
@@ -154,6 +155,29 @@ func newArena(rng *rand.Rand, withHub bool) (*arena, string) {
 	}
 	if a.chM == nil || a.chV == nil || a.ctlV == nil {
 		return nil, "channels missing"
+	}
+	if withVirtual {
+		// H opens a virtual channel with M through V: V is the hub and keeps a machine for a
+		// channel it has no key for
+		alloc := channel.NewAllocation(2, backends(n), append([]channel.Asset(nil), a.w.Assets...)...)
+		for i := range alloc.Balances {
+			alloc.Balances[i] = []channel.Bal{big.NewInt(5), big.NewInt(5)}
+		}
+		prop, err := client.NewVirtualChannelProposal(10, a.H.WAddr, alloc, []map[wallet.BackendID]wire.Address{a.H.Wire, a.M.Wire},
+			[]channel.ID{c2.ID(), ch.ID()}, [][]channel.Index{{0, 1}, {1, 0}})
+		if err != nil {
+			return nil, err.Error()
+		}
+		ctx, cancel := a.H.Ctx()
+		vch, err := a.H.Client.ProposeChannel(ctx, prop)
+		cancel()
+		if err != nil {
+			return nil, "virtual channel: " + err.Error()
+		}
+		a.virtM = a.M.AwaitChannelNoWatch(vch.ID())
+		if a.virtM == nil {
+			return nil, "virtual channel missing at the responder"
+		}
 	}
 	// The adversary does not answer sync messages: its honest client software would, and two
 	// honest clients answer each other's sync replies endlessly (harmless, but it burns CPU).
@@ -482,6 +506,41 @@ var catalogue = []hostile{
 		ini := a.virtualInitial(rng, 2)
 		return []*wire.Envelope{a.env(a.M, a.fundingProposal(rng, ini, []channel.Index{0, 1}, nil)), a.env(a.M, a.fundingProposal(rng, ini, []channel.Index{1}, nil))}
 	}},
+	{"virtual-funding/state-index-map-differs-from-the-message", false, func(rng *rand.Rand, a *arena) []*wire.Envelope {
+		// the message's index map is fine; the one inside the signed parent state is not
+		ini := a.virtualInitial(rng, 2)
+		bad := []channel.Index{0, channel.Index(2 + rng.Intn(1000))}
+		if rng.Intn(3) == 0 {
+			bad = []channel.Index{0, 1, 1, 0}
+		}
+		return one(a.env(a.M, a.fundingProposal(rng, ini, []channel.Index{0, 1}, func(st *channel.State) {
+			st.Locked[len(st.Locked)-1].IndexMap = bad
+		})))
+	}},
+	// --- a participant of a virtual channel addresses the hub's copy of that channel directly
+	{"hub-virtual/plain-update-from-a-participant", false, func(rng *rand.Rand, a *arena) []*wire.Envelope {
+		st := succ(a.virtM.State())
+		if st.Balances[0][1].Sign() > 0 {
+			st.Balances[0][1] = new(big.Int).Sub(st.Balances[0][1], big.NewInt(1))
+			st.Balances[0][0] = new(big.Int).Add(st.Balances[0][0], big.NewInt(1))
+		}
+		if rng.Intn(3) == 0 {
+			st.IsFinal = true
+		}
+		return one(a.env(a.M, a.update(st, 1)))
+	}},
+	{"hub-virtual/funding-proposal-for-the-virtual-channel-itself", false, func(rng *rand.Rand, a *arena) []*wire.Envelope {
+		ini := a.virtualInitial(rng, 2)
+		st := succ(a.virtM.State())
+		st.Locked = append(st.Locked, channel.SubAlloc{ID: ini.State.ID, Bals: ini.State.Allocation.Sum(), IndexMap: []channel.Index{0, 1}})
+		for i := range st.Balances {
+			st.Balances[i][1] = new(big.Int).Sub(st.Balances[i][1], ini.State.Allocation.Sum()[i])
+		}
+		return one(a.env(a.M, &client.VirtualChannelFundingProposalMsg{ChannelUpdateMsg: *a.update(st, 1), Initial: ini, IndexMap: []channel.Index{0, 1}}))
+	}},
+	{"hub-virtual/sync-for-the-virtual-channel", false, func(rng *rand.Rand, a *arena) []*wire.Envelope {
+		return one(a.env(a.M, &client.ChannelSyncMsg{Phase: channel.Acting, CurrentTX: channel.Transaction{State: a.virtM.State().Clone(), Sigs: []wallet.Sig{gen.FakeSig(rng), gen.FakeSig(rng)}}}))
+	}},
 	{"virtual-settlement/unknown-virtual-channel", false, func(rng *rand.Rand, a *arena) []*wire.Envelope {
 		fin := a.virtualInitial(rng, 2)
 		fin.State = fin.State.Clone()
@@ -724,14 +783,15 @@ func oneCase(s sink.Sink, em *childrun.Emitter, rng *rand.Rand, idx int, sample 
 	// choose the hostile sequence
 	nMsgs := 1 + rng.Intn(2)
 	var hs []hostile
-	needHub := false
+	needHub, needVirt := false, false
 	for i := 0; i < nMsgs; i++ {
 		h := catalogue[rng.Intn(len(catalogue))]
 		hs = append(hs, h)
 		needHub = needHub || h.hub
+		needVirt = needVirt || strings.HasPrefix(h.name, "hub-virtual/")
 	}
 	point := []string{"idle", "idle", "update-in-flight", "during-opening", "after-registration"}[rng.Intn(5)]
-	a, msg := newArena(rng, needHub)
+	a, msg := newArena(rng, needHub, needVirt)
 	if a == nil {
 		s.Inconclusive("arena setup failed: " + msg)
 		return
